@@ -6,9 +6,13 @@
 //   acknowledged exactly the numbers below the base of its latest ACKNACK (base 0 counts as 1; no ACKNACK
 //   yet = nothing acknowledged).  After handle_cache_cleaning:
 //     frame : nothing is invented, every retained sample still has the bytes / options written for it
-//     keep  : every needed sample that was retained before is still retained
-//     bound : |retained| <= depth + |needed|   (depth 1 for the default History, d for KeepLast(d),
-//             resource limit 32 for KeepAll and as a cap on d — the constant handle_cache_cleaning uses)
+//     keep  : a needed sample that was retained before leaves the history only if the History depth or a
+//             FINITE resource limit forces it out, i.e. at least that many newer samples are retained
+//             (History depth: 1 default, d for KeepLast(d), none for KeepAll; resource limit: max_samples
+//             of the ResourceLimits QoS if >= 0, none if LENGTH_UNLIMITED, the built-in 32 if the QoS is absent)
+//     bound : |retained| <= depth + |needed|, depth = min(History depth, resource limit); as resource
+//             limit both readings of a ResourceLimits QoS are accepted: ignored (the constant 32 that
+//             handle_cache_cleaning uses on the pinned tree) or honoured (max_samples; unlimited = no bound)
 //     first : first_change_sequence_number() == lowest retained number (last+1 if nothing is retained)
 //     last  : last_change_sequence_number() == number of samples written
 //     get   : get_by_sn(sn) is Some exactly for the retained numbers and returns that sample
@@ -17,7 +21,9 @@
 //   best-effort, each with no ACKNACK yet or ACKNACK base 0..=8 (beyond last+1 included) applied by the real
 //   RtpsReaderProxy::handle_ack_nack; then a second round: 0..=2 more samples and one event out of
 //   {nothing, reader 0 lost, reader 0 sends ACKNACK base 0..=8 (also backwards), a reliable / best-effort
-//   reader joins}, cleaning again.  Separately the resource limit: History in {KeepAll, KeepLast(32),
+//   reader joins}, cleaning again; all of that for the writer's ResourceLimits QoS in {absent, max_samples
+//   -1 (LENGTH_UNLIMITED), 1, 3} (instances / samples per instance unlimited).  Separately the resource limit
+//   (ResourceLimits in {absent, -1, 3, 35}): History in {KeepAll, KeepLast(32),
 //   KeepLast(33), KeepLast(40)}, n in {31,32,33,34,40}, no reader / best-effort / reliable reader with
 //   selected ACKNACK bases.
 #[cfg(test)]
@@ -46,13 +52,43 @@ mod verif_xc_writer_history {
     KeepLast(i32),
     KeepAll,
   }
+  // the writer's ResourceLimits QoS: absent, or max_samples (-1 = LENGTH_UNLIMITED); the other two unlimited
+  #[derive(Clone, Copy, Debug, PartialEq, Eq)]
+  enum Rl {
+    Absent,
+    MaxSamples(i32),
+  }
   impl Hist {
-    fn depth(self) -> usize {
+    fn depth(self) -> Option<usize> {
       match self {
-        Hist::Default => 1,
-        Hist::KeepLast(d) => std::cmp::min(d as usize, RESOURCE_LIMIT),
-        Hist::KeepAll => RESOURCE_LIMIT,
+        Hist::Default => Some(1),
+        Hist::KeepLast(d) => Some(d as usize),
+        Hist::KeepAll => None,
       }
+    }
+  }
+  // the finite limits that may force a sample out although a matched reliable reader still needs it
+  fn forcing_limits(history: Hist, rl: Rl) -> Vec<usize> {
+    let mut v: Vec<usize> = history.depth().into_iter().collect();
+    match rl {
+      Rl::Absent => v.push(RESOURCE_LIMIT),
+      Rl::MaxSamples(m) if m >= 0 => v.push(m as usize),
+      Rl::MaxSamples(_) => {} // unlimited
+    }
+    v
+  }
+  // how many samples may stay beyond the needed ones; None = neither History nor ResourceLimits set a bound.
+  // A ResourceLimits QoS may be ignored (built-in 32) or honoured: the laxer reading is accepted.
+  fn bound_depth(history: Hist, rl: Rl) -> Option<usize> {
+    let resource = match rl {
+      Rl::Absent => Some(RESOURCE_LIMIT),
+      Rl::MaxSamples(m) if m >= 0 => Some(std::cmp::max(RESOURCE_LIMIT, m as usize)),
+      Rl::MaxSamples(_) => None,
+    };
+    match (history.depth(), resource) {
+      (Some(d), Some(r)) => Some(std::cmp::min(d, r)),
+      (Some(d), None) => Some(d),
+      (None, r) => r,
     }
   }
 
@@ -83,6 +119,7 @@ mod verif_xc_writer_history {
   #[derive(Clone, Debug)]
   struct Case {
     history: Hist,
+    limits: Rl,
     n: i64,
     readers: Vec<Rd>,
     more: i64,
@@ -107,13 +144,20 @@ mod verif_xc_writer_history {
         _keep: vec![Box::new(sr), Box::new(pr)],
       }
     }
-    fn writer(&self, history: Hist) -> Writer {
+    fn writer(&self, history: Hist, limits: Rl) -> Writer {
       let (_cmd_sender, writer_command_receiver) = mio_channel::sync_channel::<WriterCommand>(4);
       let mut qos = QosPolicies::builder().reliable(Duration::from_secs(1));
       match history {
         Hist::Default => {}
         Hist::KeepLast(d) => qos = qos.history(History::KeepLast { depth: d }),
         Hist::KeepAll => qos = qos.history(History::KeepAll),
+      }
+      if let Rl::MaxSamples(m) = limits {
+        qos = qos.resource_limits(policy::ResourceLimits {
+          max_samples: m,
+          max_instances: -1,
+          max_samples_per_instance: -1,
+        });
       }
       let ing = WriterIngredients {
         guid: GUID::dummy_test_guid(EntityKind::WRITER_WITH_KEY_USER_DEFINED),
@@ -226,7 +270,6 @@ mod verif_xc_writer_history {
     let acks_before: Vec<SequenceNumber> = w.readers.values().map(|rp| rp.all_acked_before).collect();
     w.handle_cache_cleaning();
     let after = retained(w);
-    let depth = c.history.depth();
     let needed: BTreeSet<i64> = before
       .iter()
       .copied()
@@ -257,19 +300,23 @@ mod verif_xc_writer_history {
       c, round, w.readers.len(), acks_before, acks_after
     );
     // keep
+    let forcing = forcing_limits(c.history, c.limits);
     for s in &needed {
+      let newer = before.iter().filter(|t| *t > s).count();
       assert!(
-        after.contains(s),
-        "XC-WITNESS label=hist.keep {:?} round={}: sample {} was retained ({:?}) and is still unacknowledged by a matched reliable reader, but cleaning removed it (retained now {:?})",
-        c, round, s, before, after
+        after.contains(s) || forcing.iter().any(|l| newer >= *l),
+        "XC-WITNESS label=hist.keep {:?} round={}: sample {} was retained ({:?}) and is still unacknowledged by a matched reliable reader, but cleaning removed it (retained now {:?}) although only {} newer samples were retained and the finite History depth / resource limits are {:?}",
+        c, round, s, before, after, newer, forcing
       );
     }
     // bound
-    assert!(
-      after.len() <= depth + needed.len(),
-      "XC-WITNESS label=hist.bound {:?} round={}: {} samples retained {:?}, allowed at most depth {} + {} still unacknowledged by matched reliable readers {:?}",
-      c, round, after.len(), after, depth, needed.len(), needed
-    );
+    if let Some(depth) = bound_depth(c.history, c.limits) {
+      assert!(
+        after.len() <= depth + needed.len(),
+        "XC-WITNESS label=hist.bound {:?} round={}: {} samples retained {:?}, allowed at most depth {} + {} still unacknowledged by matched reliable readers {:?}",
+        c, round, after.len(), after, depth, needed.len(), needed
+      );
+    }
     // first / last
     let first = i64::from(w.history_buffer.first_change_sequence_number());
     let last = i64::from(w.history_buffer.last_change_sequence_number());
@@ -316,7 +363,7 @@ mod verif_xc_writer_history {
 
   // one scenario; false = the wall clock stepped back while writing (redo)
   fn run_case(h: &Harness, c: &Case) -> bool {
-    let mut w = h.writer(c.history);
+    let mut w = h.writer(c.history, c.limits);
     let mut last_ts = Timestamp::ZERO;
     let mut model: Vec<(GUID, Rd)> = vec![];
     for i in 1..=c.n {
@@ -402,7 +449,7 @@ mod verif_xc_writer_history {
     v
   }
 
-  fn sweep(history: Hist) -> u64 {
+  fn sweep(history: Hist, limits: Rl) {
     let h = Harness::new();
     let sets = reader_sets();
     let mut cases = 0u64;
@@ -410,35 +457,38 @@ mod verif_xc_writer_history {
       for readers in &sets {
         for more in 0..=2 {
           for ev in events(!readers.is_empty()) {
-            let c = Case { history, n, readers: readers.clone(), more, ev };
+            let c = Case { history, limits, n, readers: readers.clone(), more, ev };
             run(&h, &c);
             cases += 1;
           }
         }
       }
     }
-    cases
+    assert!(cases > 80_000, "vacuity guard: only {} scenarios enumerated", cases);
   }
 
-  #[test]
-  fn xc_hist_default_depth() {
-    let n = sweep(Hist::Default);
-    assert!(n > 80_000, "vacuity guard: only {} scenarios enumerated", n);
+  macro_rules! sweeps {
+    ($($name:ident: $history:expr, $limits:expr;)*) => {
+      $(#[test] fn $name() { sweep($history, $limits); })*
+    };
   }
-  #[test]
-  fn xc_hist_keep_last_1() {
-    let n = sweep(Hist::KeepLast(1));
-    assert!(n > 80_000, "vacuity guard: only {} scenarios enumerated", n);
-  }
-  #[test]
-  fn xc_hist_keep_last_2() {
-    let n = sweep(Hist::KeepLast(2));
-    assert!(n > 80_000, "vacuity guard: only {} scenarios enumerated", n);
-  }
-  #[test]
-  fn xc_hist_keep_all() {
-    let n = sweep(Hist::KeepAll);
-    assert!(n > 80_000, "vacuity guard: only {} scenarios enumerated", n);
+  sweeps! {
+    xc_hist_default_depth: Hist::Default, Rl::Absent;
+    xc_hist_default_depth_unlimited: Hist::Default, Rl::MaxSamples(-1);
+    xc_hist_default_depth_max_1: Hist::Default, Rl::MaxSamples(1);
+    xc_hist_default_depth_max_3: Hist::Default, Rl::MaxSamples(3);
+    xc_hist_keep_last_1: Hist::KeepLast(1), Rl::Absent;
+    xc_hist_keep_last_1_unlimited: Hist::KeepLast(1), Rl::MaxSamples(-1);
+    xc_hist_keep_last_1_max_1: Hist::KeepLast(1), Rl::MaxSamples(1);
+    xc_hist_keep_last_1_max_3: Hist::KeepLast(1), Rl::MaxSamples(3);
+    xc_hist_keep_last_2: Hist::KeepLast(2), Rl::Absent;
+    xc_hist_keep_last_2_unlimited: Hist::KeepLast(2), Rl::MaxSamples(-1);
+    xc_hist_keep_last_2_max_1: Hist::KeepLast(2), Rl::MaxSamples(1);
+    xc_hist_keep_last_2_max_3: Hist::KeepLast(2), Rl::MaxSamples(3);
+    xc_hist_keep_all: Hist::KeepAll, Rl::Absent;
+    xc_hist_keep_all_unlimited: Hist::KeepAll, Rl::MaxSamples(-1);
+    xc_hist_keep_all_max_1: Hist::KeepAll, Rl::MaxSamples(1);
+    xc_hist_keep_all_max_3: Hist::KeepAll, Rl::MaxSamples(3);
   }
 
   // the resource limit (KeepAll, and as a cap on KeepLast(d)) needs more than 32 samples to show
@@ -446,7 +496,10 @@ mod verif_xc_writer_history {
   fn xc_hist_resource_limit() {
     let h = Harness::new();
     let mut cases = 0u64;
-    for history in [Hist::KeepAll, Hist::KeepLast(32), Hist::KeepLast(33), Hist::KeepLast(40)] {
+    for (history, limits) in [Hist::KeepAll, Hist::KeepLast(32), Hist::KeepLast(33), Hist::KeepLast(40)]
+      .into_iter()
+      .flat_map(|h| [Rl::Absent, Rl::MaxSamples(-1), Rl::MaxSamples(3), Rl::MaxSamples(35)].into_iter().map(move |l| (h, l)))
+    {
       for n in [31i64, 32, 33, 34, 40] {
         let mut sets: Vec<Vec<Rd>> = vec![vec![], vec![Rd { reliable: false, ack: None }]];
         for b in [0, 1, 2, 5, n - 33, n - 32, n - 31, n - 1, n, n + 1, n + 2, n + 7] {
@@ -463,13 +516,13 @@ mod verif_xc_writer_history {
             if readers.is_empty() && ev != Ev::Nothing {
               continue;
             }
-            let c = Case { history, n, readers: readers.clone(), more, ev };
+            let c = Case { history, limits, n, readers: readers.clone(), more, ev };
             run(&h, &c);
             cases += 1;
           }
         }
       }
     }
-    assert!(cases > 2_000, "vacuity guard: only {} scenarios enumerated", cases);
+    assert!(cases > 8_000, "vacuity guard: only {} scenarios enumerated", cases);
   }
 }
